@@ -401,6 +401,43 @@ class Report:
         (EVIDENCE_DIR / f"{self.property_id}.json").write_text(json.dumps(ev, indent=1))
 
 
+
+class KernelView:
+    """A view of a Report for re-using another property's rule module under C13: only instances located in the compiled
+    sources (c/*.c, c/*.h, c/*.cpp) are forwarded, under the rule id '<prefix>.<original id>'; rule texts are kept and
+    registered on first use (floor 1); notes / assumptions / unknowns of the other property are dropped."""
+
+    def __init__(self, rep: Report, prefix: str):
+        self._rep, self._prefix, self._texts = rep, prefix, {}
+        self.tier, self.property_id = rep.tier, rep.property_id
+
+    def rule(self, rid, text, floor=1):
+        self._texts[rid] = text
+
+    def instance(self, rule, file, qualname, construct, ok, explanation="", line=None, nontrivial=True, sample=None, obligation=False):
+        if not file.endswith((".c", ".h", ".cpp")):
+            return bool(ok)
+        rid = f"{self._prefix}.{rule}"
+        if rid not in self._rep.rules:
+            self._rep.rule(rid, self._texts.get(rule, rule), 1)
+        return self._rep.instance(rid, file, qualname, construct, ok, explanation, line, nontrivial, sample, False)
+
+    def unknown(self, what):
+        pass
+
+    def assume(self, what):
+        pass
+
+    def note(self, what):
+        pass
+
+    def count(self, rule):
+        return self._rep.count(f"{self._prefix}.{rule}")
+
+    def __getattr__(self, name):
+        return getattr(self._rep, name)
+
+
 def load_known() -> dict:
     if KNOWN.is_file():
         return json.loads(KNOWN.read_text())
